@@ -67,4 +67,171 @@ PROPS = {
         "trusted": COMMON_TRUST,
         "assumptions": ["underlying writer/reader follow the io contracts (accept-all or fail; data never longer than requested)"],
     },
+    "C01": {
+        "suites": ["scheme"],
+        "level": "proof",
+        "technique": "Lean 4 proof (KDF totality for every password length by induction over the loops; generated salt always passes the regenerated guards; dispatcher facts) + Go/Lean byte-identical NewHash/Check correspondence under scripted entropy",
+        "claim": "Kernel-checked for ALL inputs: the md5-crypt, SHA-crypt, Sun-MD5 and sha1-crypt skeletons return a key for every password length and every hash function (the loop arithmetic that panicked for long passwords), "
+                 "a salt drawn by Encoding.Rand violates no guard clause, every documented prefix is registered with its package's Check, and Check succeeds iff the digest re-derived from the hash's own fields equals the stored one. "
+                 "The round trip of the ten shipped layouts is C10's. On the real code NewHash→Check→crypt.Check is run on every boundary length, and the generated hash string is byte-identical with the model's under scripted crypto/rand.",
+        "note": "Partial: the composition 'NewHash then Check = nil' is not yet one end-to-end theorem (it needs the per-shape round trips of C10); DES/bcrypt/Argon2 derivations are total by construction in the model (no partial operation) and tied by correspondence.",
+        "rule": "scheme: per scheme 18 password lengths at quick (0,1,7,8,9,16,31,32,33,63,64,65,72,73,128,254,255,256 clipped to the scheme's maximum; every length 0..300 at thorough) with 8-bit NUL-free content, "
+                "costs at the cheap end of [Min,Max]; NewHash under scripted entropy (Go string must equal the model's byte for byte, same number of entropy bytes consumed), Check and crypt.Check must return nil, Params compared; "
+                "near-miss passwords and digest substitutions (C02) ride along; non-trivial/distinct = distinct generated hashes",
+        "trusted": COMMON_TRUST + ["Go stdlib / x-crypto primitives (MD5, SHA-1/2, HMAC, MD4, Blowfish, BLAKE2b): Lean copies validated differentially"],
+        "assumptions": ["crypto/rand.Reader is replaced by a scripted reader in the harness process"],
+    },
+    "C02": {
+        "suites": ["scheme"],
+        "level": "proof",
+        "technique": "Lean 4 proof (exact characterisation of Check success on the pipeline model; digest tampering; absorption reductions to hash collisions by walking the round chain backwards) + exhaustive digest-substitution and near-miss-password search on Go",
+        "claim": "Kernel-checked for ALL hashes/passwords and every scheme instance of the pipeline: Check returns nil iff Unmarshal succeeds, Key succeeds on the hash's own salt/cost/variant and the COMPLETE encoded digest equals the stored text; "
+                 "Unmarshal/Key errors are returned, never swallowed; two hashes differing only in digest text never both verify. Absorption for all H: equal md5-crypt / SHA-crypt / Sun-MD5 keys imply equal passwords or an explicitly located hash collision; sha1-crypt up to HMAC key equivalence. "
+                 "On Go: every single-symbol substitution at every digest position and near-miss passwords (bit flips, append/remove, case, truncation at 8/16/32/64/72) never verify.",
+        "note": "Partial by nature: 'not equivalent ⇒ different digest' is, beyond the reductions, collision resistance of MD5/SHA/HMAC/DES/EksBlowfish/Argon2 — an explicit disjunct/hypothesis, never an axiom. DES/bcrypt/Argon2 absorption is not proved (sampled).",
+        "rule": "scheme: for each generated hash: near-miss passwords (single-bit flips at byte positions, one byte appended/removed/prepended, case change, truncations at 8/16/32/64/72) — all must not verify; "
+                "for the first 3 (quick) / 20 (thorough) hashes per scheme EVERY substitution of EVERY digest position by every other alphabet symbol (exhaustive; Go only) plus a 1/97 sample through the model; "
+                "non-trivial/distinct = distinct generated hashes",
+        "trusted": COMMON_TRUST + ["collision resistance of the primitives is a hypothesis of the absorption theorems"],
+        "assumptions": ["passwords are NUL-free (C-string / HMAC zero-padding equivalences excluded, as the property states)"],
+    },
+    "C03": {
+        "suites": ["kdf"],
+        "level": "proof",
+        "technique": "Lean 4 proof (code-shaped KDF skeleton = reference written from the published algorithm, for all inputs and all hash functions; loop closed forms by induction) + Go/Lean key correspondence on all ten schemes",
+        "claim": "Kernel-checked for ALL passwords, salts, round counts and ALL hash functions: md5-crypt and SHA-crypt skeletons equal references written from PHK's and Drepper's descriptions (cycleTake, binary digits LSB-first, 16+A[0] repetitions, the i%2/i%3/i%7 round pattern); "
+                 "final permutation tables (regenerated) are permutations; little-endian base64 digest encoding = bit-level spec (C16). The hand-written skeletons and the executable Lean primitives are tied to Go by key-for-key comparison on every boundary password length for all ten schemes.",
+        "note": "Partial: equality with libxcrypt itself is not yet sampled by a dedicated suite in this revision (planned `xcrypt` suite); DES/bcrypt/NT/Sun-MD5/sha1 have no separate published-spec reference in Lean yet — their models are tied to Go only.",
+        "rule": "kdf: per scheme passwords of 30 boundary lengths (0..257 around 8/16/32/56/64/72/128/254/256) plus random lengths ≤ 300, 8-bit content, every legal salt length class, rounds dense near the minimum, all prefix/option variants; "
+                "Go Key vs Lean model (hand-written skeleton over Lean primitives), results compared byte for byte; non-trivial/distinct = distinct (scheme, password length, salt length, rounds)",
+        "trusted": COMMON_TRUST + ["the hash/cipher primitives are parameters of the theorems; their Lean copies are validated differentially"],
+        "assumptions": [],
+    },
+    "C05": {
+        "suites": ["kdf", "classify"],
+        "level": "proof",
+        "technique": "Lean 4 proof (totality of every model function by kernel-checked recursion; explicit panic values proved unreachable) + outcome-class correspondence with recover and watchdog on structured mutations and short junk strings",
+        "claim": "Kernel-checked: the parser model always returns (error or tree), never stores a nil value, groups are non-empty; the KDF skeletons return a key for EVERY password length and hash function; every base64 alphabet index is < 64; the lexer's terminal token is its last. "
+                 "Go side: every Check/Params/Key call in the suites runs under recover + 20 s watchdog; the outcome class (ok / typed error / panic / timeout) must equal the model's, on every edit-distance-1 mutation of valid hashes of all ten schemes and all short strings over {$ , = _ a 0}.",
+        "note": "Partial: panics inside reflect/strconv/stdlib crypto for inputs the model considers fine are only sampled; Go-side termination is observed by watchdog, proved only for the model; no coverage-guided fuzzing in this revision.",
+        "rule": "kdf + classify: see C03 and C06 rules; every call wrapped in recover and a watchdog; non-trivial/distinct as in those suites",
+        "trusted": COMMON_TRUST,
+        "assumptions": ["cost fields of generated inputs are capped so that each call is cheap"],
+    },
+    "C14": {
+        "suites": ["guards"],
+        "level": "proof",
+        "technique": "Lean 4 proof that the guard clauses translated from each Key function by gogen equal a declarative bounds specification written over the exported constants, for all arguments (with error type and payload) + Go/Lean acceptance correspondence",
+        "claim": "Kernel-checked for ALL arguments of all ten Key functions: the guards regenerated from the current source reject exactly when a clause of the declarative specification (salt length fixed/max/min, salt alphabet, rounds/cost/time/memory/threads ranges, password length, prefix and version sets — all in terms of the exported constants) is violated, "
+                 "with exactly the typed error and payload of the FIRST violated clause; what the guards hand to the derivation is the defaulted/rewritten argument record. The guards precede the derivation (the translator stops at the first derivation statement and rejects any later error return).",
+        "note": "Trusted: gogen's guard translator (also exercised through the driver against the real Key on the guards grid). Acceptance of expensive in-range values (e.g. rounds = 999999999) is decided on the regenerated guards without running the derivation.",
+        "rule": "guards: per scheme salt lengths 0..max+3 (exhaustive), every salt position × all 256 byte values (exhaustive), rounds/cost at min-1, min, max, max+1 and random values, password lengths at limit±1, "
+                "a pool of valid/near-valid/arbitrary prefix options × flag, nil vs explicit options; verdict + error type + payload compared; non-trivial/distinct = distinct (scheme, dimension, value) cases",
+        "trusted": COMMON_TRUST,
+        "assumptions": [],
+    },
+    "C15": {
+        "suites": ["salt"],
+        "level": "proof",
+        "technique": "Lean 4 proof of the deterministic half (salt as a function of entropy: length, alphabet, unbiased symbol map, randomised-rounds window, source purity and per-call freshness decided on regenerated facts) + statistical exploration of real NewHash output",
+        "claim": "Kernel-checked: a salt drawn from n entropy bytes has n symbols, all in the alphabet; the symbol map is a bijection [0,64)→alphabet and each index has exactly 4 byte pre-images (no bias, no starved symbol); bcrypt/Argon2 salts are the 22/11-symbol encodings of 16/8 raw bytes; "
+                 "sha1 random rounds ∈ [18511, 24680] for every 32-bit draw; every `rand` import in non-test sources is crypto/rand and every NewHash body calls the generator itself (regenerated facts). "
+                 "Scripted-entropy correspondence: Go's salt equals the model's for the same entropy. Statistical run on real output: length, alphabet, 8-sigma pooled frequency bound, distinctness where the birthday bound is < 1e-12.",
+        "note": "Partial by nature: that the OS source is unpredictable and non-repeating is outside any model; the statistical run is a test, labelled as such.",
+        "rule": "salt: 2000 (quick) / 50000 (thorough) NewHash calls per scheme at the cheapest cost (sha1: 300/3000): constant salt length, alphabet, pooled per-symbol frequency within 8 sigma of uniform, every symbol generated, "
+                "per-position coverage and decoded-byte coverage at thorough, sha1 rounds window, no repeated salt where an honest collision has probability < 1e-12; scheme: scripted entropy (see C01); non-trivial/distinct = distinct salts observed",
+        "trusted": COMMON_TRUST + ["crypto/rand and the OS entropy source"],
+        "assumptions": ["statistical bounds are chosen so that a uniform source fails with probability < 1e-12"],
+    },
+    "C18": {
+        "suites": ["cache"],
+        "level": "proof",
+        "technique": "Lean 4 proof (invariant over arbitrary call histories of the type-cache protocol: entries are a function of the dereferenced type, results never depend on cache contents) tied by measured protocol facts + sequential history exploration on Go",
+        "claim": "Kernel-checked for ALL call histories: getTypeInfo's result (type info and the struct name reported in errors) equals its cold-cache result; T, *T, **T get the same type info and report their own argument type; a failing tag analysis is never cached, so invalid tags are reported on every call. "
+                 "Marshal/Unmarshal are functions of that type info and their argument in the model. The two protocol facts the theorems assume (private copy returned; entries keyed by the dereferenced type) are MEASURED on every run through the verif hook.",
+        "note": "Trusted: reflect; the protocol model is tied to typeinfo.go by the measured facts and by the history suite (each result compared with its first occurrence and with the same call on a never-seen identical type).",
+        "rule": "cache: 40 (quick) / 2000 (thorough) random operation sequences of up to 65 / 200 operations over a pool of struct types each used as T, *T and **T in success and failure cases (incl. an invalid-tag type), "
+                "interleaved with operations on a fresh type compared with a never-seen sibling; protocol facts measured; non-trivial/distinct = distinct sequences",
+        "trusted": COMMON_TRUST + ["reflect"],
+        "assumptions": [],
+    },
+    "C19": {
+        "suites": ["flowcheck"],
+        "level": "proof",
+        "technique": "Lean 4: syntactic-dataflow discipline decided by `decide` on the flow IR of every Check regenerated from the current source (secret = Key result, stored digest, encoder outputs; only sinks: encoders, len, whole-buffer subtle.ConstantTimeCompare)",
+        "claim": "Kernel-checked on the IR regenerated from the current source, for all ten schemes: the value returned by Key and the stored digest reach only encoders, len() and subtle.ConstantTimeCompare (whole buffers); the mismatch sentinel is returned by exactly one statement, guarded solely by that call's result == 0; "
+                 "no ==, bytes.Equal, indexing or other call touches secret-derived data; no statement falls outside the IR. A property over programs: the 'failing input' reported on violation is the offending statement.",
+        "note": "Trusted: gogen's statement translator (unclassifiable statements become `.other`, which fails the discipline); crypto/subtle and the encoders being constant-time at machine level. The semantic non-interference theorem for the discipline is being proved separately (Props/C19Sound.lean when present).",
+        "rule": "flowcheck: the ten Check functions; the Lean side evaluates secretSafe on the regenerated IR and names the first offending statement; non-trivial/distinct = the ten programs",
+        "trusted": COMMON_TRUST,
+        "assumptions": [],
+    },
+    "C10": {
+        "suites": ["codec"],
+        "fail_kinds": ["roundtrip", "remarshal-unstable"],
+        "level": "proof",
+        "technique": "Lean 4 proof (strconv Format/Parse round trips for every base and bit size; parse∘render; per-field step lemmas of the Unmarshal loop composed by induction over the field list; all ten shipped layouts over shapes regenerated from the Go structs) + Go/Lean codec correspondence on run-time generated struct types",
+        "claim": "Kernel-checked: ParseUint(FormatUint n b) = n and the Int analogue for every base 2..36 and bit size; parsing a rendered well-formed tree gives the tree back; the general round trip for optional-free positional layouts (any number of fields, any kinds) by induction; "
+                 "and Unmarshal(Marshal v) = v for ALL values of all ten shipped scheme layouts (param, omitempty, group, inline, text codecs), stated over the shapes regenerated from the current Go struct tags. "
+                 "The hypothesis (Unambiguous shape ∧ Representable value) is an explicit decidable predicate (Spec/CodecDomain.lean); inside it the round trip is also checked directly on Go for generated types. "
+                 "The Marshal/Unmarshal/TagInfo models are hand-written and tied by ~80 000 differential operations per run incl. error kinds, offsets and field names.",
+        "note": "Partial: the general (all-shapes) theorem is proved for the optional-free positional layer; layers with param/group/omitempty/inline are proved per shipped shape, not yet for arbitrary shapes. Known finding F12 (empty last field) is reported, not assumed away. Trusted: reflect's view of a type.",
+        "rule": "codec: 16 hand-written shapes (embedding, shadowing, pointers, mirrors of the ten shipped layouts) + 120 (quick) / 2500 (thorough) struct types generated with reflect.StructOf over kinds × tag options (1..8 fields), 6..20 values each over/outside each field's alphabet, lengths 0..40, integer extremes; "
+                "for each: typeinfo, Marshal in T/*T/**T form, Unmarshal of the canonical string and of its edit-distance-1 neighbourhood/splices, round trip, re-marshal stability, respelling verdict; "
+                "non-trivial/distinct = distinct (type, marshalled string) pairs",
+        "trusted": COMMON_TRUST + ["reflect (visibility, promotion, Implements)"],
+        "assumptions": ["[]byte values compare by content (nil ≡ empty)", "generated types use only the text codecs the shipped schemes use, with the tag options those use"],
+    },
+    "C20": {
+        "suites": ["codec"],
+        "fail_kinds": ["not-a-respelling"],
+        "level": "proof",
+        "technique": "Lean 4: decidable Respell specification evaluated on every string the real Unmarshal accepts (against Marshal of the very value it returned) + kernel-checked lossless/exact parsing so that nothing is dropped before the codec sees it",
+        "claim": "Kernel-checked: the parser is lossless and equals the split-based reference on every input, no value hides a delimiter, parse∘render is the identity on well-formed trees (so an accepted string's fragments are exactly what the codec matched). "
+                 "The tolerated respellings (one trailing delimiter; integer spellings of equal value; order inside a parameter group; explicitly written zero/empty optional field) are a decidable specification written against the derivation of the canonical string, "
+                 "and EVERY string accepted by the real Unmarshal in the suites (edit-distance-1 neighbourhoods, splices, all short strings) is checked to be a respelling of the real Marshal of the returned value — a disagreement is a concrete failing input.",
+        "note": "Partial: 'accepted ⇒ respelling' is not yet a theorem for all strings (neither in general nor per shipped shape) — it is decided per accepted string against the specification. Known findings F10 (param+inline) and F13 (omitempty on non-empty arrays) are reported as such.",
+        "rule": "codec: see C10; for every (type, value): every string at edit distance 1 from the canonical marshalling under the class-representative alphabet {$ , = _ 0 9 a Z . / + @ NUL 0xFF} (exhaustive for strings ≤ 24 bytes on a quarter of the types, sampled otherwise), "
+                "structural splices (prefix inserted/removed, name=/= removed, fragments swapped/duplicated, group split/merged, junk fragment/group appended), all strings ≤ 4 (quick) / 5 (thorough) over {$ , = a 0 _} for five small types; "
+                "non-trivial/distinct = distinct (type, marshalled string) pairs",
+        "trusted": COMMON_TRUST,
+        "assumptions": ["an explicit sign on an integer field counts as an alternative digit spelling"],
+    },
+    "C06": {
+        "suites": ["classify"],
+        "level": "proof",
+        "technique": "Lean 4 proof (three-way classification of Check on the pipeline model; every canonical-domain hash of the ten layouts is accepted with exactly its fields) + exhaustive edit-distance-1 classification correspondence on Go",
+        "claim": "Kernel-checked: Check returns nil / mismatch / error exactly according to (Unmarshal result, Key result, digest equality) — errors are never reported as mismatch and never swallowed (C02.check_ok_iff, error-return theorems); for all ten shipped layouts every canonical-domain string is accepted and yields exactly its fields (C10.canonical_*), "
+                 "zero-length fields are enforced (regenerated shapes). On Go: every string at edit distance 1 from canonical hashes of every scheme (all substitutions, insertions, deletions, truncations under the class alphabet), field-level splices and all short strings are classified identically by the model, incl. error kind, offset and field; Params compared likewise.",
+        "note": "Partial: the converse direction ('accepted ⇒ in the documented grammar') is carried by the model/implementation correspondence, not yet by an independent per-scheme grammar theorem. Finding 9 candidates (explicit rounds=0 / v=0 read as absent) are classified identically by model and code and surface under C06 only through that reading.",
+        "rule": "classify: per scheme 1–3 canonical hashes (incl. implicit rounds, absent Argon2 version, both Sun-MD5 forms, $2$/$2a$), every edit at every position with 14 class-representative bytes (insert, substitute), every deletion and truncation, pairwise fragment swaps/duplications/drops, junk appendices — "
+                "sampled with a stride to ≤ 1500 (500 for Sun-MD5/bcrypt) ops per hash at quick, 12× that at thorough; × {correct, wrong} password; all strings ≤ 4/6 over {$ , = _ a 0}; "
+                "non-trivial/distinct = canonical hashes mutated",
+        "trusted": COMMON_TRUST,
+        "assumptions": [],
+    },
+    "C12": {
+        "suites": ["scheme"],
+        "level": "proof",
+        "technique": "Lean 4 proof (Params and Check apply the same defaults — decided on the regenerated flow IR; canonical-domain round trips of the ten layouts) + byte-for-byte NewHash correspondence and an independent canonical-layout recogniser on Go",
+        "claim": "Kernel-checked on regenerated IR/shapes: Params and Check of every scheme contain the same default-filling statements; every canonical-domain value of the ten layouts marshals to a string that unmarshals to the same fields (C10.canonical_*, roundtrip_*); Check succeeds iff Key on the extracted parameters re-encodes to the stored digest (C02.check_ok_iff, where the extracted parameters are exactly what Params returns in the model). "
+                 "On Go: every generated hash matches an independently written regular expression of the canonical layout, Params returns the requested cost/options and the generated salt, and the hash string equals the model's reassembly byte for byte.",
+        "note": "Partial: 'NewHash output is canonical' is checked on Go by the independent recogniser and by byte-identity with the model, not yet as a Lean theorem about the model's output for all inputs.",
+        "rule": "scheme: see C01; canonical-layout regular expression per scheme; Params compared with the model; non-trivial/distinct = distinct generated hashes",
+        "trusted": COMMON_TRUST,
+        "assumptions": [],
+    },
+    "C13": {
+        "unclaimed": "the Lean side of this property (regenerated slice-effect IR with a taint-soundness theorem, DESIGN.md §7 C13) is not built yet; the purity exploration suite exists (harness/purity.go) and found/guards the bcrypt defect, but exploration is not this task's technique",
+        "suites": ["purity"],
+        "level": "exploration",
+        "technique": "Go harness: sentinel-buffer before/after comparison over full capacity, repeated and interleaved calls, result mutation; keys compared with the Lean model (which is a pure function by construction)",
+        "claim": "Exploration: every Key is called with password and salt passed as sub-slices (len < cap) of sentinel-filled buffers at all lengths around each scheme's truncation limits and with every option variant; the whole backing arrays are compared before/after; each call is repeated after the first result has been mutated over its full capacity, and earlier calls are replayed to detect cross-call aliasing. "
+                 "Determinism additionally follows from key-for-key agreement with the Lean model, a pure function. (The slice-effect IR proof planned in DESIGN.md is not built yet, so the level claimed is exploration.)",
+        "note": "No proof yet for this property: the planned regenerated slice-effect IR with a taint-soundness theorem is not implemented in this revision.",
+        "rule": "purity: per scheme password lengths around the truncation limits (bcrypt 0,1,8,70..74,100,253..256; DES 0,1,7,8; …) × nil/explicit option variants × 2 salts; "
+                "arguments as sub-slices with 9/7 spare bytes; non-trivial/distinct = distinct (scheme, length, variant)",
+        "trusted": ["stdlib/x-crypto calls do not write their inputs (observed only)"],
+        "assumptions": [],
+    },
 }
